@@ -308,7 +308,7 @@ func init() {
 			o.WDup, o.WEarlyTmo = 5, 2
 			o.TightTmo = 10
 			o.Payloads = 2
-			o.Behaviours = []string{"ok", "ok", "fail", "w1ok"}
+			o.Behaviours = []string{"ok", "ok", "fail", "w1ok", "blob", "blob"}
 		},
 		func(ck *sim.Check) {
 			ck.Level = "fault_enumeration"
@@ -338,7 +338,7 @@ func init() {
 		[]string{"recv-effects:"}, 96, 1600,
 		func(o *CoreOptions, r *rand.Rand, tier string) {
 			o.Kinds = subset(r, allKinds)
-			o.Behaviours = []string{"ok", "fail", "async", "panic", "w1ok", "w2ok", "w3ok", "w1fail", "w2fail", "w3fail", "w2async", "w2panic", "sfail", "w2sfail"}
+			o.Behaviours = []string{"ok", "fail", "async", "panic", "w1ok", "w2ok", "w3ok", "w1fail", "w2fail", "w3fail", "w2async", "w2panic", "sfail", "w2sfail", "blob", "w1blob"}
 			o.WDup, o.WEarlyTmo, o.TightTmo = 4, 2, 10
 		},
 		func(ck *sim.Check) {
@@ -658,6 +658,8 @@ func init() {
 			o.WEarlyTmo = 8
 			o.WClose = 0
 			o.MaxPkts = 20
+			// half of the packets belong to an application that re-sends from its timeout callback
+			o.Behaviours = []string{"ok", "zok", "fail", "zok", "async", "zw2ok", "w2fail", "zfail"}
 		},
 		func(ck *sim.Check) {
 			ck.RequiredProbes = []string{"ordered_timeout_closed_channel", "packet_message_refused_on_channel_closed_by_timeout"}
